@@ -230,11 +230,15 @@ def c12_6(ctx):
     if not a:
         ctx.fail(f, f.node, 'array branch of _df_fillna not found')
         return
-    r0 = [r for r in a[0].body if isinstance(r, ast.Return)]
+    r0 = [r for x in a[0].body for r in ast.walk(x) if isinstance(r, ast.Return)]
     want = NS('df_fillna(pd.DataFrame(%s) if len(%s.shape) == 2 else pd.Series(%s), method, axis, limit).values' % (df, df, df))
     want2 = NS('df_fillna(pd.DataFrame(%s) if len(%s.shape) == 2 else pd.Series(%s), method=method, axis=axis, limit=limit).values' % (df, df, df))
-    if not r0 or N(r0[0].value) not in (want, want2):
-        ctx.fail(f, r0[0] if r0 else a[0], 'array path is `%s`' % (U(r0[0].value) if r0 else '?'))
+    if not r0:
+        ctx.fail(f, a[0], 'array path is `?`')
+    for r_ in r0:          # EVERY exit of the array branch: an array result must be the pandas result on the same cells (limit, inf and method order included)
+        ctx.count(1)
+        if N(r_.value) not in (want, want2):
+            ctx.fail(f, r_, 'array path is `%s`: arrays must take the round trip through pandas so that numpy and pandas inputs are filled identically' % U(r_.value))
     # it must precede the method loop
     loop, m, chain = _method_chain(f)
     if a[0].lineno > loop.lineno:
